@@ -52,6 +52,22 @@ func (h *H[T]) C10(rc *runCtx) *Violation {
 	}
 	cont := []int{8, 3, 24, 64, 200}[prog.Draw(5)]
 	maxOut := 1 + prog.Draw(rc.b.MaxOut)
+	marathon := false
+	switch {
+	case isHuge(a):
+		nOps, maxOut = 14, 3
+		rc.tally("shape_class", "huge")
+	case prog.Draw(rc.b.MarathonOneIn) == rc.b.MarathonOneIn-1:
+		// Marathon: a very long history on a tiny shape with many buffers out,
+		// for state that only goes wrong after tens of thousands of operations
+		// (wrapping counters, ring indices, generation numbers).
+		marathon = true
+		a = signal.Allocator{Channels: 1 + prog.Draw(2), Length: prog.Draw(2), Capacity: 1 + prog.Draw(3)}
+		nOps, cont, maxOut = 150000+prog.Draw(150000), 1<<30, 18+prog.Draw(8)
+		rc.tally("shape_class", "marathon")
+	default:
+		rc.tally("shape_class", "ordinary")
+	}
 	rc.cfg = spA("alloc=%+v meanops=%d maxout=%d %s", a, cont, maxOut, env)
 	sim.Tracef("config: T=%s %s", h.name, rc.cfg)
 
@@ -60,13 +76,8 @@ func (h *H[T]) C10(rc *runCtx) *Violation {
 	// shape lives next to it (state that a modified library keeps per
 	// package, per type or per size must not leak between pools).
 	as := []signal.Allocator{a}
-	if prog.Draw(3) == 2 && a.Capacity >= 1 {
-		b := signal.Allocator{Channels: a.Capacity, Capacity: a.Channels}
-		if b.Channels > 4*rc.b.MaxC {
-			b = signal.Allocator{Channels: 1, Capacity: a.Channels * a.Capacity}
-		}
-		b.Length = prog.Draw(b.Capacity + 1)
-		as = append(as, b)
+	if prog.Draw(3) == 2 && a.Capacity >= 1 && !marathon {
+		as = append(as, secondAllocator(prog, a, rc.b))
 		rc.tally("second_pool", "yes")
 	} else {
 		rc.tally("second_pool", "no")
@@ -113,10 +124,20 @@ func (h *H[T]) C10(rc *runCtx) *Violation {
 	serial := 0
 	gcSinceEmpty := false
 	acceptedPuts := 0
+	var putViol *Violation
 
 	// crosstalk runs f, which may write through hb only, and checks that no
 	// other outstanding buffer changed (oracle 2: no shared storage).
+	xtalkTick := 0
 	crosstalk := func(hb *held[T], what string, f func()) *Violation {
+		if marathon {
+			// marathons are about identity and freshness after very many
+			// operations; the crosstalk snapshots run on every 97th write only
+			if xtalkTick++; xtalkTick%97 != 0 {
+				f()
+				return nil
+			}
+		}
 		snaps := make([][]uint64, len(out))
 		for i, o := range out {
 			if o != hb {
@@ -232,7 +253,10 @@ func (h *H[T]) C10(rc *runCtx) *Violation {
 		id := sim.ObjID(unsafe.Pointer(hb.cur))
 		sim.Mix(0xa000 | uint64(id)<<16)
 		sim.Tracef("op: pool %d Put(#%d) via handle %d (obj#%d len=%d cap=%d; history %+v)", hb.pool, hb.serial, handle, id, hb.cur.Len(), hb.cur.Cap(), hb.hs)
-		pv := put(hb.pool, handle, hb.cur)
+		var pv any
+		if v := crosstalk(hb, "Put", func() { pv = put(hb.pool, handle, hb.cur) }); v != nil && putViol == nil {
+			putViol = v // returning one buffer must not touch the others that are checked out
+		}
 		rc.ops++
 		if pv != nil {
 			// A rejected put is legal (C10 constrains what is handed out, not
@@ -263,6 +287,20 @@ func (h *H[T]) C10(rc *runCtx) *Violation {
 				}
 			}
 			kind := prog.Draw(8)
+			if marathon {
+				// mostly gets and puts, drifting between few and many buffers out
+				switch k := prog.Draw(20); {
+				case k < 9:
+					kind = 0
+				case k < 18:
+					kind = 1
+				default:
+					kind = 4
+				}
+				if len(out) >= maxOut && kind == 0 {
+					kind = 1
+				}
+			}
 			switch {
 			case len(out) == 0 || (kind == 0 && len(out) < maxOut):
 				if v := doGet(); v != nil {
@@ -271,6 +309,10 @@ func (h *H[T]) C10(rc *runCtx) *Violation {
 				}
 			case kind == 1 || kind == 2:
 				doPut(prog.Draw(len(out)))
+				if putViol != nil {
+					prog.End()
+					return putViol
+				}
 			case kind == 3 && prog.Draw(4) == 0:
 				i := prog.Draw(len(out))
 				sim.Mix(0xb000)
@@ -307,6 +349,9 @@ func (h *H[T]) C10(rc *runCtx) *Violation {
 		// path the pool exists for.
 		for len(out) > 0 && prog.Draw(4) != 3 {
 			doPut(len(out) - 1)
+			if putViol != nil {
+				return putViol
+			}
 		}
 		for k := 1 + prog.Draw(4); k > 0; k-- {
 			if v := doGet(); v != nil {
